@@ -27,6 +27,9 @@ func propC05(c *Check) {
 	c.Rule("R3", "terms on the way to processing (ProcessWithdrawal and ReplaceWithdrawal): decoded tx fully consumed, output count n or n+1, per id: script equals DecodeBtcAddress(address), output value <= requested amount, fee/size <= MaxTxPrice; extra output pays the current relayer key; replace: strictly higher fee, new txid")
 	c.Rule("R4", "terms on the way to paid (FinalizeWithdrawal): Validate, proposer, txid among the voted txids, voted block hash equals DoubleSHA256(header), SPV of that txid at the claimed non-zero position, amount = output of the matched tx, processing entry removed")
 	c.Rule("R5", "Finalize/ApproveCancellation are bound to the current proposer; Withdrawals has no other writer")
+	c.Rule("R6", "the amount reported on payment is the voted transaction's output: in ProcessWithdrawal and ReplaceWithdrawal every iteration of the per-withdrawal loop that does not fail records the output value for its index in the TxOuptut that is appended to the processing entry (an iteration that skips it leaves 0, which FinalizeWithdrawal would report as the paid amount); the change-output check relies on the system-address recipe (C17/R1)")
+	c.outputValuesRecorded("R6")
+	c.Depend("R6", "C17", propC17, map[string]bool{"R1": true}, "the extra output 'must pay the current relayer key': VerifySystemAddressScript accepts exactly the script the address builder derives from that key")
 
 	wt := p.LookupType("x/bitcoin/types", "Withdrawal")
 	en := p.EnumOf(p.LookupType("x/bitcoin/types", "WithdrawalStatus"))
@@ -647,4 +650,48 @@ func sameLoopIndex(fn *ssa.Function, val, addr ssa.Value) bool {
 		}
 	}
 	return false
+}
+
+
+// outputValuesRecorded: every store `txOutput.Values[idx] = v` inside the per-withdrawal loops of the two
+// transaction-voting handlers is executed by every iteration that goes on to the next one.
+func (c *Check) outputValuesRecorded(rule string) {
+	p := c.p
+	n := 0
+	for _, key := range []string{"x/bitcoin/keeper.msgServer.ProcessWithdrawal", "x/bitcoin/keeper.msgServer.ReplaceWithdrawal"} {
+		f := p.MustFn(key)
+		c.touch(f)
+		found := false
+		for _, b := range f.Blocks {
+			for _, in := range b.Instrs {
+				st, ok := in.(*ssa.Store)
+				if !ok {
+					continue
+				}
+				ia, ok := st.Addr.(*ssa.IndexAddr)
+				if !ok {
+					continue
+				}
+				ld, ok := ia.X.(*ssa.UnOp)
+				if !ok {
+					continue
+				}
+				fa, ok := ld.X.(*ssa.FieldAddr)
+				if !ok || fieldName(fa.X.Type(), fa.Field) != "Values" || namedOf(fa.X.Type()) == nil || namedOf(fa.X.Type()).Obj().Name() != "TxOuptut" {
+					continue
+				}
+				found = true
+				n++
+				if skip, path := loopIterationCanSkip(f, st); skip {
+					c.Violated(rule, "output-value-recorded-each-iteration @ "+FuncKey(f), p.InstrPos(st), "an iteration of the per-withdrawal loop can go on to the next one without recording the output value of its withdrawal: the entry keeps 0 and FinalizeWithdrawal reports 0 as the paid amount", p.describePath(path)...)
+				} else {
+					c.Held(rule, "output-value-recorded-each-iteration @ "+FuncKey(f), p.InstrPos(st), "Values[idx] is stored on every path around the loop")
+				}
+			}
+		}
+		if !found {
+			c.Violated(rule, "output-value-recorded @ "+FuncKey(f), p.Pos(f.Pos()), "no store to TxOuptut.Values[idx] found reason=not-established")
+		}
+	}
+	c.Floor(rule, "per-withdrawal output value stores", n, 2)
 }
